@@ -5,3 +5,5 @@ go 1.25
 require github.com/bartventer/httpcache v0.0.0
 
 replace github.com/bartventer/httpcache => /repo
+
+require github.com/anishathalye/porcupine v1.3.0
